@@ -313,8 +313,21 @@ fn eval_ops_inner(req: &str) -> ImplOut {
                     }
                 }
             }
+            // a defined name whose formula spells an existing sheet in another case: the name machinery
+            // (`parse_reference_formula`) finds the sheet ignoring case, the formula parser does not
+            let case_variant = pre_names.iter().any(|(_, _, fo)| {
+                let fu = fo.to_uppercase();
+                spec.sheets.iter().any(|sh| {
+                    let q = sh.replace('\'', "''");
+                    fu.contains(&q.to_uppercase()) && !fo.contains(&q)
+                })
+            });
+            if case_variant {
+                out = out.tag("name-with-case-variant-prefix");
+            }
             if !ghost_capture {
-                cmp_values(&mut out, "c32:rename:value-changed", &post_obs, &pre_obs);
+                let sig = if case_variant { "c32:rename:case-variant-prefix-in-name" } else { "c32:rename:value-changed" };
+                cmp_values(&mut out, sig, &post_obs, &pre_obs);
             }
         }
         NOp::Sheet(Op::Delete(_)) => {
@@ -343,14 +356,15 @@ fn eval_ops_inner(req: &str) -> ImplOut {
             // cells of other sheets whose formulas do not mention the deleted sheet keep their value
             // as it appears inside formulas (an apostrophe is doubled inside the quotes)
             let del_name = spec.sheets.get(pre_ids.iter().position(|x| *x == del).unwrap_or(99)).cloned().unwrap_or_default().replace('\'', "''");
+            let del_up = del_name.to_uppercase();
             let names_on_deleted: Vec<String> = pre_names
                 .iter()
-                .filter(|(_, sid, fo)| *sid == Some(del) || fo.contains(&del_name))
+                .filter(|(_, sid, fo)| *sid == Some(del) || fo.to_uppercase().contains(&del_up))
                 .map(|(n, _, _)| n.to_uppercase())
                 .collect();
             for po in pre_obs.iter().filter(|c| c.sheet_id != del) {
                 let fo = po.formula.clone().unwrap_or_default();
-                if fo.contains(&del_name) || names_on_deleted.iter().any(|n| fo.to_uppercase().contains(n)) {
+                if fo.to_uppercase().contains(&del_up) || names_on_deleted.iter().any(|n| fo.to_uppercase().contains(n)) {
                     continue;
                 }
                 if let Some(q) = post_obs.iter().find(|q| q.sheet_id == po.sheet_id && q.row == po.row && q.col == po.col) {
